@@ -81,6 +81,7 @@ class Sched:
         self.counter = {}
         self.errors = []      # uncaught exceptions of controlled threads (name, exception)
         self.soft = set()     # names of threads currently parked at a soft yield
+        self.budget_at = None # step number after which the main thread is resumed with Hang (per-scenario watchdog)
         self._filter_cache = {}
 
     # ---------------------------------------------------------------- inside controlled threads
@@ -132,6 +133,10 @@ class Sched:
         if w == "hang":
             raise Hang()
         return w != "timeout"
+
+    def set_budget(self, nsteps):
+        """watchdog: if more than nsteps scheduler steps pass from now, 'main' is resumed with Hang (None = off)"""
+        self.budget_at = None if nsteps is None else self.steps + nsteps
 
     def soft_yield(self):
         """yield between two steps of an environment script: others go first by default (see PreemptionBounded)"""
@@ -257,6 +262,10 @@ class Sched:
                     name = self.chooser([self.names[x] for x in enabled], self)
                     pick = [x for x in enabled if self.names[x] == name][0]
                 self.steps += 1
+                if self.budget_at is not None and self.steps > self.budget_at and self.state[main_id] != "done":
+                    self.budget_at = None
+                    self.wake[main_id] = "hang"
+                    pick = main_id
                 if self.steps > self.max_steps:
                     self.wake[main_id] = "hang"
                     pick = main_id
